@@ -13,6 +13,7 @@ import (
 	"io"
 	"net/http"
 	"net/http/httptest"
+	"net/url"
 	"os"
 	"sort"
 	"strings"
@@ -72,6 +73,7 @@ type Op struct {
 	Thresh  int64  `json:"thresh,omitempty"`
 	Stride  int    `json:"stride,omitempty"`
 	Dup     bool   `json:"dup,omitempty"`     // createpool / branch / rename: reuse an existing name
+	Name    int    `json:"name,omitempty"`    // createpool / branch / rename: ordinal into nameSuffixes (-1: the empty name, pools only)
 	Batch   int    `json:"batch,omitempty"`   // load
 	Via     string `json:"via,omitempty"`     // load: api | zng zson zjson json csv vng auto
 	Bad     string `json:"bad,omitempty"`     // load: "" | tail (malformed tail) | reader (reader fails mid-stream) | meta (invalid commit meta)
@@ -216,6 +218,14 @@ var preds = []string{"k < 10", "k >= 110", "k == 105", "s == \"a\"", "v == 1", "
 
 var formats = []string{"zng", "zson", "zjson", "json", "csv"}
 
+// Suffixes appended to generated pool and branch names.  Single quotes are documented as illegal in names
+// (lakeparse.ParseCommitish) and the empty branch name is not generated.
+var nameSuffixes = []string{"", "", " sp", "é", "/sl", "@at", ":co", ".dot", "\"dq", "%2Bpc", "+plus", "", "x"}
+
+func genName(t *rapid.T) int {
+	return rapid.IntRange(0, len(nameSuffixes)-1).Draw(t, "name")
+}
+
 var kindSlots = []string{"query", "load", "query", "lateerr", "delete", "deletewhere", "compact", "query", "branch", "merge", "revert", "vectors", "misc", "createpool", "load", "query"}
 
 var loadVias = []string{"api", "zson", "zng", "json", "csv", "zjson", "vng", "auto", "api", "csv", "json", "vng", "zjson", "auto", "zng", "zson"}
@@ -245,13 +255,13 @@ func genQuery(t *rapid.T, op *Op) {
 		q := rapid.SampledFrom(dataQueries).Draw(t, "dq")
 		op.Query, op.Ordered = q.q, q.ordered
 	}
-	op.Missing = rapid.IntRange(0, 24).Draw(t, "missing") == 0
+	op.Missing = rapid.IntRange(0, 24).Draw(t, "missing") == 13
 	op.Raws = genRaws(t)
 }
 
 func genCase(t *rapid.T) Case {
 	c := Case{
-		Parallel:    rapid.SampledFrom([]int{0, 1, 1, 1, 2, 2}).Draw(t, "par"),
+		Parallel:    rapid.SampledFrom([]int{1, 1, 0, 2, 1, 1, 1, 1}).Draw(t, "par"),
 		BatchValues: rapid.SampledFrom([]int{1, 2, 3, 100}).Draw(t, "batchvalues"),
 	}
 	maxOps, maxBatch := 12, 8
@@ -287,7 +297,7 @@ func genCase(t *rapid.T) Case {
 			kind = "load"
 		}
 		if kind == "misc" {
-			kind = rapid.SampledFrom([]string{"vacuum", "renamepool", "dropbranch", "droppool", "vacuum", "dropbranch"}).Draw(t, "misc")
+			kind = rapid.SampledFrom([]string{"vacuum", "renamepool", "dropbranch", "tip", "poolid", "droppool", "vacuum", "dropbranch"}).Draw(t, "misc")
 		}
 		if kind == "vectors" {
 			kind = rapid.SampledFrom([]string{"addvec", "delvec", "addvec"}).Draw(t, "vec")
@@ -300,6 +310,10 @@ func genCase(t *rapid.T) Case {
 			op.Thresh = rapid.SampledFrom([]int64{40, 0, 40, 100}).Draw(t, "thresh")
 			op.Stride = rapid.SampledFrom([]int{1, 0, 1, 16}).Draw(t, "stride")
 			op.Dup = i > 0 && rapid.IntRange(0, 5).Draw(t, "dup") == 5
+			op.Name = genName(t)
+			if i > 0 && rapid.IntRange(0, 3).Draw(t, "emptyname") == 3 {
+				op.Name = -1
+			}
 		case "load":
 			op.Batch = rapid.IntRange(0, nb-1).Draw(t, "batch")
 			op.Via = rapid.SampledFrom(loadVias).Draw(t, "via")
@@ -337,6 +351,7 @@ func genCase(t *rapid.T) Case {
 			op.Other = rapid.IntRange(0, 3).Draw(t, "src")
 			op.At = rapid.SampledFrom([]int{0, 0, 0, 1, 2}).Draw(t, "at")
 			op.Dup = rapid.IntRange(0, 7).Draw(t, "dup") == 7
+			op.Name = genName(t)
 		case "dropbranch":
 			if rapid.IntRange(0, 5).Draw(t, "dropmain") == 5 {
 				op.Pick = []int{0} // allow dropping main
@@ -347,6 +362,7 @@ func genCase(t *rapid.T) Case {
 			op.At = rapid.SampledFrom([]int{0, 0, 1, 2, 3}).Draw(t, "at")
 		case "renamepool":
 			op.Dup = rapid.IntRange(0, 5).Draw(t, "dup") == 5
+			op.Name = genName(t)
 		case "droppool":
 		case "lateerr":
 			op.Pick = []int{rapid.SampledFrom([]int{7, 7, 0, 7, 1, 7}).Draw(t, "pick")}
@@ -434,6 +450,9 @@ type runner struct {
 	names int // counter for fresh names
 	// object value cache: side -> object id -> values
 	objVals [2]map[ksuid.KSUID][]zed.Value
+
+	curNames []string // pool and branch names the current step puts into URL paths
+	abandon  string   // set when a known finding makes the two lakes diverge for good: the history ends here
 
 	serviceMutations int
 	multiBatch       int
@@ -873,9 +892,9 @@ func (r *runner) subst(q string, p *mpool, branch string, p2 *mpool, missing boo
 	if p2 != nil {
 		p2n = p2.name
 	}
-	q = strings.ReplaceAll(q, "{P2}", p2n)
-	q = strings.ReplaceAll(q, "{P}", pn)
-	q = strings.ReplaceAll(q, "{B}", branch)
+	q = strings.ReplaceAll(q, "{P2}", "'"+p2n+"'")
+	q = strings.ReplaceAll(q, "{P}", "'"+pn+"'")
+	q = strings.ReplaceAll(q, "{B}", "'"+branch+"'")
 	return q
 }
 
@@ -1038,10 +1057,29 @@ const (
 	sigNotInBand     = "C19/late-error/not-in-band/status-endpoint-only"
 	sigDroppedFully  = "C19/late-error/dropped"
 	sigCtrlNoMessage = "C19/late-error/control-response-without-error-message"
+	sigPlus          = "C19/names/plus-sign/path-param-query-unescaped"
+	sigEmptyPool     = "C19/create-pool/empty-name-accepted-by-service"
 )
 
 // compareQuery runs one query on both sides (interface level) and the raw variants on the served side.
 func (r *runner) compareQuery(step int, what string, head *lakeparse.Commitish, text string, ordered bool, raws []Raw, injected bool) *vt.Failure {
+	f := r.compareQueryOnce(step, what, head, text, ordered, raws, injected)
+	if f != nil && r.c.Parallel != 1 && strings.HasPrefix(f.Sig, "C19/query/") {
+		// With a parallelised scan some programs are not a function of the lake content (observed: `sort -r this |
+		// tail 2` under parallelism 2 picks different rows from run to run).  Such a mismatch says nothing about
+		// the service, so under parallelism != 1 a mismatch only counts when it is reproducible: the comparison is
+		// repeated and accepted as soon as one repetition agrees.  (Parallelism 1, the majority of cases, is strict.)
+		for i := 0; i < 5; i++ {
+			if r.compareQueryOnce(step, what, head, text, ordered, raws, injected) == nil {
+				r.o.Label("query:nondeterministic-under-parallelism")
+				return nil
+			}
+		}
+	}
+	return f
+}
+
+func (r *runner) compareQueryOnce(step int, what string, head *lakeparse.Commitish, text string, ordered bool, raws []Raw, injected bool) *vt.Failure {
 	d := collect(r.sides[0].api.Query(r.ctx, head, text))
 	s := collect(r.sides[1].api.Query(r.ctx, head, text))
 	if d.batches >= 2 {
@@ -1212,9 +1250,16 @@ func (r *runner) pool(op Op) *mpool {
 	return r.pools[op.Pool%len(r.pools)]
 }
 
-func (r *runner) freshName(prefix string) string {
+func (r *runner) freshName(prefix string, suffix int) string {
 	r.names++
-	return fmt.Sprintf("%s%d", prefix, r.names)
+	sfx := ""
+	if suffix > 0 {
+		sfx = nameSuffixes[suffix%len(nameSuffixes)]
+	}
+	if sfx != "" {
+		r.o.Label("name:" + sfx)
+	}
+	return fmt.Sprintf("%s%d%s", prefix, r.names, sfx)
 }
 
 // both applies f to both sides and compares error presence.
@@ -1226,6 +1271,9 @@ func (r *runner) both(step int, kind string, f func(si int, l lakeapi.Interface)
 		if e0 != nil {
 			return false, fail("C19/"+kind+"/error-only-direct", "step %d: %s fails directly (%v) but succeeds through the service", step, kind, e0)
 		}
+		if f := r.plusSign(step, kind, e1); f != nil || r.abandon != "" {
+			return false, f
+		}
 		return false, fail("C19/"+kind+"/error-only-remote", "step %d: %s succeeds directly but fails through the service: %v", step, kind, e1)
 	}
 	if e0 != nil {
@@ -1236,6 +1284,22 @@ func (r *runner) both(step int, kind string, f func(si int, l lakeapi.Interface)
 	r.o.Label("ok:" + kind)
 	r.debugf("step %d %s: ok", step, kind)
 	return true, nil
+}
+
+// plusSign classifies "succeeds directly, not found through the service" for names containing '+': the client
+// path-escapes names (which keeps '+') and the service query-unescapes path parameters (which turns '+' into ' ').
+func (r *runner) plusSign(step int, kind string, e1 error) *vt.Failure {
+	for _, n := range r.curNames {
+		if strings.Contains(n, "+") && strings.Contains(e1.Error(), strings.ReplaceAll(n, "+", " ")) {
+			if !vt.IsKnown(sigPlus) {
+				return fail(sigPlus, "step %d: %s on the pool/branch named %q succeeds directly but the service looks for %q and answers: %v", step, kind, n, strings.ReplaceAll(n, "+", " "), e1)
+			}
+			r.o.Known = append(r.o.Known, sigPlus)
+			r.abandon = sigPlus
+			return nil
+		}
+	}
+	return nil
 }
 
 var debug = os.Getenv("VERIF_C19_DEBUG") != ""
@@ -1299,6 +1363,10 @@ func (r *runner) step(step int, op Op, before [2]*lakeState) *vt.Failure {
 	if p != nil && len(p.branches) > 0 {
 		branch = p.branches[op.Branch%len(p.branches)]
 	}
+	r.curNames = nil
+	if p != nil {
+		r.curNames = []string{p.name, branch}
+	}
 	pickBranch := func(i int) string {
 		if len(p.branches) == 0 {
 			return "main"
@@ -1307,7 +1375,10 @@ func (r *runner) step(step int, op Op, before [2]*lakeState) *vt.Failure {
 	}
 	switch op.Kind {
 	case "createpool":
-		name := r.freshName("p")
+		name := r.freshName("p", op.Name)
+		if op.Name == -1 {
+			name = ""
+		}
 		if op.Dup && p != nil {
 			name = p.name
 		}
@@ -1319,6 +1390,26 @@ func (r *runner) step(step int, op Op, before [2]*lakeState) *vt.Failure {
 			sk = order.SortKeys{order.NewSortKey(order.Desc, field.Dotted(op.Key))}
 		}
 		var ids [2]ksuid.KSUID
+		if name == "" {
+			_, e0 := r.sides[0].api.CreatePool(ctx, name, sk, op.Stride, op.Thresh)
+			id1, e1 := r.sides[1].api.CreatePool(ctx, name, sk, op.Stride, op.Thresh)
+			r.tr.waitIdle()
+			r.o.Label("createpool:empty-name")
+			if e0 == nil {
+				return fail("C19/create-pool/empty-name-accepted-directly", "step %d: CreatePool(\"\") succeeded directly", step)
+			}
+			if e1 == nil {
+				if !vt.IsKnown(sigEmptyPool) {
+					return fail(sigEmptyPool, "step %d: CreatePool(\"\") is refused directly (%v) but the service creates a pool with the empty name (id %s)", step, e0, id1)
+				}
+				r.o.Known = append(r.o.Known, sigEmptyPool)
+				if err := r.sides[1].api.RemovePool(ctx, id1); err != nil {
+					return fail("C19/harness/resync", "step %d: cannot remove the pool with the empty name again: %v", step, err)
+				}
+				r.tr.waitIdle()
+			}
+			return nil
+		}
 		ok, f := r.both(step, "createpool", func(si int, l lakeapi.Interface) error {
 			id, err := l.CreatePool(ctx, name, sk, op.Stride, op.Thresh)
 			ids[si] = id
@@ -1332,7 +1423,7 @@ func (r *runner) step(step int, op Op, before [2]*lakeState) *vt.Failure {
 			r.serviceMutations++
 		}
 	case "renamepool":
-		name := r.freshName("r")
+		name := r.freshName("r", op.Name)
 		if op.Dup {
 			name = r.pools[(op.Pool+1)%len(r.pools)].name
 		}
@@ -1355,7 +1446,7 @@ func (r *runner) step(step int, op Op, before [2]*lakeState) *vt.Failure {
 		}
 	case "branch":
 		src := pickBranch(op.Other)
-		name := r.freshName("b")
+		name := r.freshName("b", op.Name)
 		if op.Dup {
 			name = branch
 		}
@@ -1389,9 +1480,12 @@ func (r *runner) step(step int, op Op, before [2]*lakeState) *vt.Failure {
 				return fail(sigRemoveBranch, "step %d: RemoveBranch(%s@%s) succeeds directly but the remote lake returns %q (the service has DELETE /pool/{pool}/branch/{branch})", step, p.name, branch, e1)
 			}
 			r.o.Known = append(r.o.Known, sigRemoveBranch)
-			req := r.conn.NewRequest(ctx, http.MethodDelete, "/pool/"+p.id[1].String()+"/branch/"+branch, nil)
+			req := r.conn.NewRequest(ctx, http.MethodDelete, "/pool/"+p.id[1].String()+"/branch/"+url.PathEscape(branch), nil)
 			resp, err := r.conn.Do(req)
 			if err != nil {
+				if f := r.plusSign(step, "dropbranch", err); f != nil || r.abandon != "" {
+					return f
+				}
 				return fail("C19/remove-branch/route-fails", "step %d: DELETE /pool/{id}/branch/%s fails although direct RemoveBranch succeeded: %v", step, branch, err)
 			}
 			resp.Body.Close()
@@ -1517,6 +1611,7 @@ func (r *runner) step(step int, op Op, before [2]*lakeState) *vt.Failure {
 		if parent == branch {
 			return nil
 		}
+		r.curNames = append(r.curNames, parent)
 		ok, f := r.both(step, "merge", func(si int, l lakeapi.Interface) error {
 			_, err := l.MergeBranch(ctx, p.id[si], branch, parent, r.msg(step, ""))
 			return err
@@ -1545,6 +1640,25 @@ func (r *runner) step(step int, op Op, before [2]*lakeState) *vt.Failure {
 		}
 		if ok {
 			r.serviceMutations++
+		}
+	case "tip":
+		_, f := r.both(step, "tip", func(si int, l lakeapi.Interface) error {
+			_, err := l.CommitObject(ctx, p.id[si], branch)
+			return err
+		})
+		return f
+	case "poolid":
+		var got [2]ksuid.KSUID
+		ok, f := r.both(step, "poolid", func(si int, l lakeapi.Interface) error {
+			id, err := l.PoolID(ctx, p.name)
+			got[si] = id
+			return err
+		})
+		if f != nil {
+			return f
+		}
+		if ok && (got[0] == p.id[0]) != (got[1] == p.id[1]) {
+			return fail("C19/poolid/wrong-pool", "step %d: PoolID(%q) resolves to the pool created under that name directly: %v, through the service: %v", step, p.name, got[0] == p.id[0], got[1] == p.id[1])
 		}
 	case "query":
 		var head *lakeparse.Commitish
@@ -1714,6 +1828,11 @@ func (r *runner) load(step int, op Op, p *mpool, branch string, before [2]*lakeS
 		r.serviceMutations++
 		return nil
 	}
+	if e0 == nil && e1 != nil {
+		if f := r.plusSign(step, "load", e1); f != nil || r.abandon != "" {
+			return f
+		}
+	}
 	if (e0 != nil) != (e1 != nil) {
 		if e0 != nil {
 			return fail("C19/load/raw/error-only-direct", "step %d: %s body (%d bytes, bad=%q) fails to load directly (%v) but the service accepted it (warnings %q)", step, via, len(body), op.Bad, e0, resp.Warnings)
@@ -1871,6 +1990,10 @@ func runCase(c Case) *vt.Outcome {
 		if f != nil {
 			o.Fail = f
 			return o
+		}
+		if r.abandon != "" {
+			o.Label("abandoned:" + r.abandon)
+			break
 		}
 		steps++
 		if (op.Kind == "query" || op.Kind == "lateerr") && i != len(c.Ops)-1 {
